@@ -373,6 +373,10 @@ C          IF (NGAUSS.GT.NPNG1) PRINT 7340, NGAUSS
          CALL CONST(NGAUSS,NMAX,MMAX,P,X,W,AN,ANN,S,SS,NP,EPS)
          CALL VARY(LAM,MRR,MRI,A,EPS,NP,NGAUSS,X,P,PPI,PIR,PII,R,
      &              DR,DDR,DRR,DRI,NMAX)
+         IF (PPI.LT.0D0) THEN
+            MAXITER=-1
+            RETURN
+         ENDIF
          CALL TMATR0 (NGAUSS,X,W,AN,ANN,S,SS,PPI,PIR,PII,R,DR,
      &                 DDR,DRR,DRI,NMAX,NCHECK)
          QEXT=0D0
@@ -413,6 +417,10 @@ C       IF (NGAUSS.EQ.NPNG1) PRINT 7336
          CALL CONST(NGAUSS,NMAX,MMAX,P,X,W,AN,ANN,S,SS,NP,EPS)
          CALL VARY(LAM,MRR,MRI,A,EPS,NP,NGAUSS,X,P,PPI,PIR,PII,R,
      &              DR,DDR,DRR,DRI,NMAX)
+         IF (PPI.LT.0D0) THEN
+            MAXITER=-1
+            RETURN
+         ENDIF
          CALL TMATR0 (NGAUSS,X,W,AN,ANN,S,SS,PPI,PIR,PII,R,DR,
      &                 DDR,DRR,DRI,NMAX,NCHECK)
          QEXT=0D0
@@ -1016,6 +1024,16 @@ C       IF (NMAX.GT.NPN1) PRINT 9000,NMAX,NPN1
  9000 FORMAT(' NMAX = ',I2,', i.e., greater than ',I3)
       TB=TA*DSQRT(MRR*MRR+MRI*MRI)
       TB=DMAX1(TB,DFLOAT(NMAX))
+C     the downward recurrences in RJB and CJB start at NMAX+NNMAX1 and
+C     NMAX+NNMAX2 in work arrays of 800 and 1200 elements: for |m|x beyond
+C     about 1100 they would be overrun.  Report failure to the caller
+C     through a negative PPI instead.
+      IF (TB+4D0*(TB**0.33333D0)+1.2D0*DSQRT(TB)+5D0.GT.1200D0.OR.
+     &    DFLOAT(NMAX)+1.2D0*DSQRT(DMAX1(TA,DFLOAT(NMAX)))+3D0
+     &    .GT.800D0) THEN
+         PPI=-1D0
+         RETURN
+      ENDIF
       NNMAX1=1.2D0*DSQRT(DMAX1(TA,DFLOAT(NMAX)))+3D0
       NNMAX2=(TB+4D0*(TB**0.33333D0)+1.2D0*DSQRT(TB))
       NNMAX2=NNMAX2-NMAX+5
